@@ -40,6 +40,11 @@ func largeBatch() spec.Batch {
 		doc := spec.Doc{ID: fmt.Sprintf("L%d", d)}
 		for fi, n := range names {
 			f := spec.Field{Name: n, DV: fi%2 == 0, Stored: fi%3 == 0, Value: []byte(fmt.Sprintf("value %s %d", n, d)), Len: 6}
+			if fi == 0 && d == 0 {
+				// a stored payload far larger than any other item's (the builder's stored-data
+				// scratch buffers grow to it and are kept for the next build)
+				f.Value = []byte(strings.Repeat(string(f.Value)+" ", 50))
+			}
 			for t := 0; t < 6; t++ {
 				tok := spec.Tok{Term: fmt.Sprintf("t%d%s", (t+d+fi)%8, n), Freq: 1 + t%2}
 				if t%2 == 0 {
@@ -243,7 +248,7 @@ func init() {
 	run.Register(&run.Def{
 		ID:          "C10",
 		Level:       "model_checking",
-		Rule:        "histories and schedules of real builds sharing the pooled builder memory: a batch menu of 8 items (empty; one small document; many fields / terms / doc values / locations / arrays; few fields, many documents; synonyms with two thesauri; synonyms with one thesaurus; a batch rejected by the field validator; composite field with overlapping field names; under the vectors tag also a vector batch and a two-vector-field batch). (a) EVERY sequence over the menu of length <= 3 (quick) / 4 (thorough), run in one process: under the controlled scheduler with a deterministic sync.Pool (Get returns the most recently put builder = maximal reuse; the alternatives 'another pooled builder' and 'a fresh one' are explored as environment deviations, bound 1-2), with the pool empty or pre-seeded with 1-2 used builders left by concurrent builds (histories run without preemptions; goroutines spawned by the code run to completion at the spawn point); and with the real sync.Pool (GC disabled). (b) 2 goroutines building concurrently: every pair of the menu, pool pre-seeded with 0/1/2 used builders, interleavings at pool operations up to 4 preemptions (each build has 2 pool operations, so this covers all interleavings of 2 builds; 2 preemptions in quick when the pool is pre-seeded with 2 builders); 3 goroutines: every triple of a 5-item sub-menu, empty pool, preemption bound 2; results checked after the join; plus a free-running -race pass. Oracle: every build's complete dump equals the reference of its own batch (= what a fresh process would build), and the bytes it would persist carry a footer and CRC-32 that match them; the rejected batch fails. Non-trivial = history or schedule with >= 2 builds.",
+		Rule:        "histories and schedules of real builds sharing the pooled builder memory: a batch menu of 8 items (empty; one small document; many fields / terms / doc values / locations / arrays and a 500-byte stored value; few fields, many documents; synonyms with two thesauri; synonyms with one thesaurus; a batch rejected by the field validator; composite field with overlapping field names; under the vectors tag also a vector batch and a two-vector-field batch). (a) EVERY sequence over the menu of length <= 3 (quick) / 4 (thorough), run in one process: under the controlled scheduler with a deterministic sync.Pool (Get returns the most recently put builder = maximal reuse; the alternatives 'another pooled builder' and 'a fresh one' are explored as environment deviations, bound 1-2), with the pool empty or pre-seeded with 1-2 used builders left by concurrent builds (histories run without preemptions; goroutines spawned by the code run to completion at the spawn point); and with the real sync.Pool (GC disabled). (b) 2 goroutines building concurrently: every pair of the menu, pool pre-seeded with 0/1/2 used builders, interleavings at pool operations up to 4 preemptions (each build has 2 pool operations, so this covers all interleavings of 2 builds; 2 preemptions in quick when the pool is pre-seeded with 2 builders); 3 goroutines: every triple of a 5-item sub-menu, empty pool, preemption bound 2; results checked after the join; plus a free-running -race pass. Oracle: every build's complete dump equals the reference of its own batch (= what a fresh process would build), and the bytes it would persist carry a footer and CRC-32 that match them; the rejected batch fails. Non-trivial = history or schedule with >= 2 builds.",
 		Assumptions: append([]string{"the validator hook (exported variable ValidateDocFields) is set by the harness for the whole run"}, batchAssumptions...),
 		Bounds:      map[string]string{"quick": "sequences <= 3 x preseed {0,2} (scheduler) and <= 3 (real pool); all concurrent pairs, triples of a 5-item sub-menu; race pass", "thorough": "sequences <= 4 x preseed {0,1,2}; same concurrent space"},
 		Flavours:    func(string) []string { return []string{"inst", "instvec", "plain", "race"} },
